@@ -54,11 +54,18 @@ Hex4(s, p) ==   \* value of four hex digits at p, or -1
   LET a == RHex(At(s, p)) b == RHex(At(s, p + 1)) c == RHex(At(s, p + 2)) d == RHex(At(s, p + 3)) IN
   IF a < 0 \/ b < 0 \/ c < 0 \/ d < 0 THEN -1 ELSE a * 4096 + b * 256 + c * 16 + d
 
+\* a run of plain ASCII characters of a string (no quote, no backslash, no control character) is taken in one piece: PlainEnd is the first
+\* position at or after p that is not one (blocks of 64 first, so that a run of 60 000 characters is a few hundred steps deep, not 60 000)
+PlainCh(b) == b >= 32 /\ b <= 126 /\ b # 34 /\ b # 92
+RECURSIVE PlainEnd(_, _)
+PlainEnd(s, p) == IF p + 63 <= Len(s) /\ \A i \in p..(p + 63) : PlainCh(s[i]) THEN PlainEnd(s, p + 64)
+                  ELSE IF p <= Len(s) /\ PlainCh(s[p]) THEN PlainEnd(s, p + 1) ELSE p
 RECURSIVE PStrBody(_, _, _)
 \* p is after the opening quote; acc the code points so far
 PStrBody(s, p, acc) ==
   LET b == At(s, p) IN
   IF b = 256 \/ b < 32 THEN RFail
+  ELSE IF PlainCh(b) THEN LET q == PlainEnd(s, p) IN PStrBody(s, q, acc \o SubSeq(s, p, q - 1))
   ELSE IF b = 34 THEN ROk(Str(acc), p + 1)
   ELSE IF b = 92 THEN
        LET e == At(s, p + 1) IN
